@@ -110,6 +110,13 @@ PROPS["C04"] = {
         K("protect∘unprotect round trip, padding-only packet", "c04_roundtrip_sha80_p0_pad1", "quick", "bounded",
           ["SrtpContext::protect", "SrtpContext::unprotect"],
           "a packet with empty payload and one padding byte (P bit set) round-trips like any other", bound="12-byte header, empty payload, padding 1", timeout=1200),
+        K("SrtpPacket::parse (16 B, literal first octet)", "c04_srtp_packet_parse_16_literal_b0", "quick", "bounded", ["SrtpPacket::parse", "RtpHeader::parse"],
+          "header fields recovered, padding bit kept for after decryption, body == everything after the 12-byte header",
+          bound="16 bytes in a BytesMut; first octet V=2, X=0, CC=0 literal, P bit and everything else symbolic", timeout=900),
+        K("protect → SrtpPacket::parse → unprotect (real receive path, AES_CM, 2 B payload, 2 B padding)", "c04_full_roundtrip_via_parse_sha80_p2_pad2", "thorough", "bounded",
+          ["SrtpContext::protect", "SrtpPacket::parse", "SrtpContext::unprotect"],
+          "the bytes protect wrote are parsed by the real SrtpPacket::parse and unprotected: header fields, payload, padding and index state come back",
+          bound="12-byte header, 2 payload bytes, padding 2; fixed keys", timeout=1800),
         K("canary: estimate_roc always returns roc", "canary_estimate_roc_always_roc", "quick", "canary", ["SrtpContext::estimate_roc"],
           "false claim, must FAIL", expect="fail"),
     ],
@@ -307,6 +314,13 @@ PROPS["C15"] = {
         K("set_extension next to / over existing elements (literal framing)", "c15_set_extension_existing_literal", "quick", "bounded", ["RtpHeader::set_extension", "RtpHeader::get_extension"],
           "adding id 2 keeps ids 1 and 3 byte for byte and re-pads; replacing id 1 by a longer value keeps the others; get returns each value; unknown id is None",
           bound="received block 10 v 30 w (framing octets literal, values symbolic), 2-byte value", module=RM, timeout=900),
+        K("RtpPacket::parse_bytes∘marshal (3 B payload)", "c15_packet_marshal_parse_p3", "quick", "bounded", ["RtpPacket::marshal", "RtpPacket::parse_bytes", "RtpHeader::parse", "RtpHeader::write_to"],
+          "parsing what marshal emitted returns the same header fields, payload and padding count", bound="12-byte header (no CSRC / extension), 3 payload bytes, parsed from a static Bytes", module=RM),
+        K("RtpPacket::parse_bytes∘marshal (2 B payload, 2 B padding)", "c15_packet_marshal_parse_p2_pad2", "quick", "bounded", ["RtpPacket::marshal", "RtpPacket::parse_bytes"],
+          "same with padding: P bit set, padding count octet, payload boundary", bound="12-byte header, 2 payload bytes, padding 2", module=RM),
+        K("OSN codec (RFC 4588)", "c15_osn_codec", "quick", "proof", ["encode_osn", "decode_osn"], "big-endian, inverse for every u16, None below 2 bytes", module="rtx"),
+        K("RTX wrap then unwrap (3 B payload)", "c15_rtx_wrap_unwrap_p3", "quick", "bounded", ["wrap_rtx_packet", "unwrap_rtx_packet"],
+          "RTX packet carries rtx ssrc/pt/seq, the original timestamp and marker, OSN || payload; unwrap restores sequence number, timestamp, marker, payload", bound="3 payload bytes", module="rtx"),
         K("canary: report block inverse without clamping", "canary_report_block_unclamped", "quick", "canary", ["build_report_block"], "false claim, must FAIL", expect="fail", module=RM),
     ],
 }
@@ -394,6 +408,8 @@ PROPS["C07"] = {
         + _c07(["c07_hs_msg_0", "c07_hs_msg_11", "c07_hs_msg_12", "c07_hs_msg_16"], HM2, "HandshakeMessage::decode", "HandshakeMessage::decode")
         + _c07(["c07_record_0", "c07_record_12", "c07_record_13", "c07_record_14", "c07_record_20"], RCM, "DtlsRecord::decode", "DtlsRecord::decode")
         + _c07(["c07_rtp_header_parse_0", "c07_rtp_header_parse_11", "c07_rtp_header_parse_12"], RM, "RtpHeader::parse", "RtpHeader::parse (over &[u8])")
+        + [K("RtpPacket::parse_bytes total on 16 bytes (literal first octet)", "c07_rtp_packet_parse_bytes_16_literal_b0", "quick", "bounded", ["RtpPacket::parse_bytes", "RtpHeader::parse"],
+             "no panic; Ok => payload length + padding count == 4", bound="16 bytes; first octet V=2, X=0, CC=0 literal, P bit and everything else symbolic", module=RM)]
         + _c07(["c07_parse_sr_0", "c07_parse_sr_24", "c07_parse_sr_52"], RM, "parse_sender_report", "parse_sender_report")
         + _c07(["c07_parse_rr_3", "c07_parse_rr_28"], RM, "parse_receiver_report", "parse_receiver_report")
         + _c07(["c07_parse_psfb_16", "c07_parse_psfb_24"], RM, "parse_rtcp_psfb", "parse_rtcp_psfb")
